@@ -14,9 +14,17 @@ package lock
 //@ type Context
 //@   ghost tokens int
 
+//@ func NewContext
+//@   tags C13
+//@   modifies nothing
+//@   ensures result != nil && fresh(result)
+//@   ensures [C13.ctxlock.oneslot] cap(result.locked) == 1
+
 //@ func (*Context).Lock
 //@   tags C13 C07
 //@   requires c != nil && ctx != nil
+//@   at every send ghost c.tokens = c.tokens + (arg0 == c.locked ? 1 : 0)
+//@   at every recv ghost c.tokens = c.tokens - (arg0 == c.locked ? 1 : 0)
 //@   ensures [C13.ctxlock.err] result != nil ==> c.tokens == old(c.tokens)
 //@   ensures [C13.ctxlock.ok] result == nil ==> c.tokens == old(c.tokens) + 1
 //@   at select#0 ghost c.tokens = c.tokens + (res0 == 1 ? 1 : 0)
@@ -25,6 +33,8 @@ package lock
 //@ func (*Context).RLock
 //@   tags C13 C07
 //@   requires c != nil && ctx != nil
+//@   at every send ghost c.tokens = c.tokens + (arg0 == c.locked ? 1 : 0)
+//@   at every recv ghost c.tokens = c.tokens - (arg0 == c.locked ? 1 : 0)
 //@   ensures [C13.ctxrlock.err] result != nil ==> c.tokens == old(c.tokens)
 //@   ensures [C13.ctxrlock.ok] result == nil ==> c.tokens == old(c.tokens) + 1
 //@   at select#0 ghost c.tokens = c.tokens + (res0 == 1 ? 1 : 0)
@@ -34,10 +44,74 @@ package lock
 //@   tags C13 C07
 //@   requires c != nil && c.tokens >= 1
 //@   ensures [C13.ctxunlock] c.tokens == old(c.tokens) - 1
-//@   at recv#0 ghost c.tokens = c.tokens - 1
+//@   at every recv ghost c.tokens = c.tokens - (arg0 == c.locked ? 1 : 0)
+//@   at every send ghost c.tokens = c.tokens + (arg0 == c.locked ? 1 : 0)
 
 //@ func (*Context).RUnlock
 //@   tags C13 C07
 //@   requires c != nil && c.tokens >= 1
 //@   ensures [C13.ctxrunlock] c.tokens == old(c.tokens) - 1
-//@   at recv#0 ghost c.tokens = c.tokens - 1
+//@   at every recv ghost c.tokens = c.tokens - (arg0 == c.locked ? 1 : 0)
+//@   at every send ghost c.tokens = c.tokens + (arg0 == c.locked ? 1 : 0)
+
+// C13, lock.OuterCancel: the bookkeeping of the single hold-handling goroutine. o.rcancels is the set of live
+// (registered, not yet released/cancelled) readers, keyed by a counter; o.lock is the one-slot token every hold
+// passes through (ghost o.tokens: units owned by the current goroutine, as for Context above). Proved for
+// handleHold: a new reader is registered under a key no live reader uses (so a writer's sweep over rcancels reaches
+// every live reader and a release deletes only its own entry); a writer's response is sent only after wg.Wait()
+// returned and with the token kept (handed to the writer's unlock function), a reader's hold gives the token back;
+// a hold that reports an error owns nothing. ghost o.draining: a writer has reset the counter while entries may
+// remain. Assumed (stated at the clause): when handleHold next takes rcancelLock after a writer's wg.Wait()
+// returned, rcancels is empty — the WaitGroup counts exactly the registered entries and handleHold runs on one
+// goroutine (Run) only; neither is within the contracts' reach.
+
+//@ type OuterCancel
+//@   ghost tokens int
+//@   ghost draining bool
+//@   lock rcancelLock protects rcancelx rcancels draining
+//@   lockinv rcancelLock self.rcancels != nil
+//@   lockinv rcancelLock [C13.outer.inv.keys] !self.draining ==> (forall k uint64 :: haskey(self.rcancels, k) ==> k < self.rcancelx)
+
+//@ func NewOuterCancel
+//@   tags C13
+//@   modifies nothing
+//@   ensures result != nil && fresh(result)
+//@   ensures [C13.outer.oneslot] cap(result.lock) == 1
+//@   ensures [C13.outer.new] result.rcancels != nil && len(result.rcancels) == 0 && result.rcancelx == 0 && result.closeCh != nil && result.shutdownLock != nil && result.ch != nil
+
+//@ func (*OuterCancel).handleHold
+//@   tags C13
+//@   requires o != nil && h != nil && h.respCh != nil
+//@   requires h.writeLock ==> h.rctx == nil
+//@   requires !h.writeLock ==> h.rctx != nil
+//@   ensures [C13.outer.writer.keeps] h.writeLock ==> o.tokens == old(o.tokens) + 1
+//@   ensures [C13.outer.reader.returns] !h.writeLock ==> o.tokens == old(o.tokens)
+//@   ghost waited int
+//@   opt go=ignore
+//@   loop 0 invariant o == old(o) && h == old(h) && heldw(o.rcancelLock) && o.tokens == old(o.tokens) + 1 && waited == 0 && o.rcancels != nil
+//@   at select#0 ghost o.tokens = o.tokens + (res0 == 0 ? 1 : 0)
+//@   at every send ghost o.tokens = o.tokens + (arg0 == o.lock ? 1 : 0)
+//@   at every recv ghost o.tokens = o.tokens - (arg0 == o.lock ? 1 : 0)
+//@   at call Lock#0 assume o.draining ==> (forall k uint64 :: !haskey(o.rcancels, k))
+//@   at call Lock#0 assume o.rcancelx < 18446744073709551615
+//@   at call Add#0 ghost o.draining = false
+//@   at store rcancelx#0 ghost o.draining = true
+//@   at call Lock#0 ghost waited = 0
+//@   at call Wait#0 ghost waited = 1
+//@   at send#2 assert [C13.outer.writer.after-wait] waited == 1
+//@   at before mapupdate#0 assert [C13.outer.reader.fresh-slot] !haskey(o.rcancels, i)
+
+// rcancel: a reader's release / cancellation. Under rcancelLock it deletes only the key the reader was registered
+// under; the key invariant is preserved.
+//@ func (*OuterCancel).handleHold$2
+//@   tags C13
+//@   requires o != nil && doneCh != nil && cancel != nil
+//@   opt go=ignore
+
+// the writer's unlock function: gives the token back
+//@ func (*OuterCancel).handleHold$1
+//@   tags C13
+//@   requires o != nil && o.tokens >= 1
+//@   ensures [C13.outer.writer.unlock] o.tokens == old(o.tokens) - 1
+//@   at every recv ghost o.tokens = o.tokens - (arg0 == o.lock ? 1 : 0)
+//@   at every send ghost o.tokens = o.tokens + (arg0 == o.lock ? 1 : 0)
